@@ -228,7 +228,17 @@ Definition kc (k : skind) : kclass :=
   | SName => CName | SLabel => CLabel | SKeyword => CKeyword | SSymbol => CSymbol
   end.
 
-Definition corr (s : stok) (t : token) : Prop := tk t = kc (s_kind s) /\ tcode t = spec_code s.
+(* the delimiter and data fields of the parser's token, in terms of the reference token *)
+Definition tokfields (s : stok) (t : token) : Prop :=
+  match s_kind s with
+  | SString =>
+    if s_long s <? 0 then tq t = hd 0 (s_raw s) /\ tdata t = s_text s
+    else tq t = 256 + s_long s /\
+         s_raw s = 91 :: repeat 61 (Z.to_nat (s_long s)) ++ 91 :: tdata t ++ 93 :: repeat 61 (Z.to_nat (s_long s)) ++ [93]
+  | _ => tq t = 0 /\ tdata t = s_raw s
+  end.
+
+Definition corr (s : stok) (t : token) : Prop := tk t = kc (s_kind s) /\ tcode t = spec_code s /\ tokfields s t.
 
 Definition pks (s : stok) : kclass * list Z := (kc (s_kind s), spec_code s).
 Definition pkt (t : token) : kclass * list Z := (tk t, tcode t).
@@ -346,11 +356,12 @@ Qed.
    of the old list the trivia tokens whose text is what the spaces function wrote for the run *)
 Inductive rr : dstate -> Z -> list token -> list stok -> Prop :=
 | rr_nil st q : rr st q [] []
-| rr_code st q t l s' ss' : tis_trivia t = false -> pks s' = pkt t ->
+| rr_code st q t l s s' ss' : tis_trivia t = false -> corr s t -> (exists src rest, spec_step src = Some (s, rest)) -> s' = norm_tok s ->
     rr (tok_depth_after st t) (q + 1) l ss' -> rr st q (t :: l) (s' :: ss')
 | rr_run st q ind T l toks ss' : T <> [] -> forallb tis_trivia T = true ->
     match l with [] => True | u :: _ => tis_trivia u = false end -> Pind st ind l ->
     Forall trivial toks -> rawtxt toks = W q ind (match l with [] => true | _ => false end) T ->
+    existsb is_nlk toks = existsb is_newline T ->
     rr st (q + zlen T) l ss' -> rr st q (T ++ l) (toks ++ ss').
 
 Definition code_is_raw (s : stok) : Prop := spec_code s = s_raw s.
@@ -374,7 +385,7 @@ Proof.
     pose proof (chain_txt _ _ Hch1) as Hrest. subst rest. inversion Hok as [|? ? Hok0 Hok1]; subst.
     destruct (IH ltac:(lia) ss1 Hc1 Hch1 Hok1) as (ss1' & Hc' & Hcr' & Hv' & Hh' & Hnl' & Hrr' & Hraw').
     assert (Hsig : sis_trivia s = false) by (rewrite <- (corr_trivia s t Hst); exact Ht).
-    destruct Hst as [Hk Hcode].
+    pose proof Hst as Hst0. destruct Hst as [Hk [Hcode Hfld]].
     assert (Hrel : hdrel (rawtxt ss1) out).
     { unfold hdconc in Hh'. destruct l as [|u l1]; [right; left; exact Hh'|].
       destruct (tis_trivia u); [apply Hh'; lia | left; exact Hh']. }
@@ -391,7 +402,7 @@ Proof.
     + intros seen. cbn [skinds map]. fold (skinds ss1') (skinds ss1).
       pose proof (f_equal fst (pks_norm s _ _ Hstep)) as Hkk. cbn [fst pks] in Hkk. rewrite Hkk.
       unfold sis_trivia in Hsig. destruct (s_kind s); try discriminate Hsig; cbn [kc nlk]; rewrite Hnl'; reflexivity.
-    + apply rr_code; [exact Ht | | exact Hrr']. rewrite (pks_norm s _ _ Hstep). unfold pks, pkt. rewrite Hk, Hcode. reflexivity.
+    + eapply rr_code; [exact Ht | exact Hst0 | eauto | reflexivity | exact Hrr'].
     + constructor; [eapply norm_code_raw; eassumption | exact Hraw'].
   - (* a run of white space and comments *)
     destruct (Forall2_app_inv_r' _ _ _ _ Hcorr) as (ssT & ssl & -> & HcT & Hcl).
@@ -405,7 +416,7 @@ Proof.
       unfold trivial. rewrite <- (corr_trivia s t Hst). exact H1. }
     assert (Hcode : run_code T = rawtxt ssT).
     { clear -HcT HtrT. unfold run_code, rawtxt. f_equal. induction HcT as [|s t a b Hst _ IH]; [reflexivity|].
-      inversion HtrT; subst. cbn [map]. f_equal; [|apply IH; assumption]. destruct Hst as [_ ->]. apply trivial_code. assumption. }
+      inversion HtrT; subst. cbn [map]. f_equal; [|apply IH; assumption]. destruct Hst as [_ [-> _]]. apply trivial_code. assumption. }
     (* what follows the run: a code token, or nothing *)
     assert (Hnext : (l = [] /\ ssl = [] /\ out = []) \/
                     (exists c o1 o2, rawtxt ssl = c :: o1 /\ out = c :: o2 /\ is_blank c = false /\ is_eol c = false)).
@@ -425,7 +436,7 @@ Proof.
     { unfold X. rewrite (gs_arun W G), Hcode. exact Hrun. }
     assert (HcrX : crlf_ok X).
     { unfold X. apply (gs_crlf W G). clear -HcT HokT. induction HcT as [|s t a b Hst _ IH]; [constructor|].
-      inversion HokT; subst. constructor; [|apply IH; assumption]. destruct Hst as [_ ->]. assumption. }
+      inversion HokT; subst. constructor; [|apply IH; assumption]. destruct Hst as [_ [-> _]]. assumption. }
     assert (HcrXo : crlf_only (X ++ out) = true) by (destruct HcrX; apply EchoProofs.crlf_only_app_intro; assumption).
     assert (Hsc : starts_code out).
     { destruct Hnext as [(_ & _ & ->)|(c & o1 & o2 & _ & -> & Hb & He)]; [left; reflexivity | right; eauto]. }
@@ -442,7 +453,7 @@ Proof.
     + (* what the run begins with *)
       destruct T as [|t1 T1]; [congruence|]. cbn [app]. unfold hdconc.
       cbn [forallb] in HT2. apply andb_true_iff in HT2. destruct HT2 as [Ht1 _]. rewrite Ht1. intros Hq0.
-      inversion HcT as [|s1 t1' ssT1 T1' Hs1 _]; subst. destruct Hs1 as [_ Hc1].
+      inversion HcT as [|s1 t1' ssT1 T1' Hs1 _]; subst. destruct Hs1 as [_ [Hc1 _]].
       inversion HtrT; subst. inversion Hch as [|s0 t0 rest ts0 Hstep _]; subst.
       destruct (code_head _ _ _ Hstep) as (c0 & r1 & r2 & Hr1 & Hr2).
       assert (Hne1 : tcode t1 <> []) by (rewrite Hc1, Hr2; discriminate).
@@ -455,7 +466,8 @@ Proof.
         -- left. exists c. eexists. eexists. split; [|reflexivity]. cbn [app]. rewrite rawtxt_cons, Hr1. cbn [app].
            rewrite Hc1, Hr2 in Hc. cbn [hd] in Hc. subst c. reflexivity.
     + intros seen. rewrite !skinds_app, (nlk_trivia _ Htr), (nlk_trivia _ HtrT), Hnlw. apply Hnl'.
-    + eapply rr_run; try eassumption.
+    + eapply rr_run; try eassumption. rewrite <- Hnlw. clear -HcT. induction HcT as [|s t a b Hst _ IH]; [reflexivity|].
+      cbn [existsb]. rewrite IH. f_equal. destruct Hst as [Hk _]. unfold is_nlk, is_newline. rewrite Hk. destruct (s_kind s); reflexivity.
     + apply Forall_app. split; [|exact Hraw']. eapply Forall_impl; [|exact Htr]. intros a Ha. apply trivial_code, Ha.
   - rewrite (gs_nil W G). cbn [app]. apply IH; assumption.
 Qed.
@@ -521,17 +533,31 @@ Lemma pkt_lex_token lt : pkt (lex_token lt) = (kclass_of_kind (Lexer.t_kind lt),
 Proof. reflexivity. Qed.
 
 (* the lexer's tokens, as the parser sees them, against the reference tokens *)
-Lemma agrees_corr ss0 lts :
-  map (fun t => (Lexer.t_kind t, Lexer.tok_code t)) lts = map (fun s => (LexerView.kind_of (s_kind s), LexerView.spec_code s)) ss0 ->
+Lemma zlen_repeat {A} (x : A) n : zlen (repeat x n) = Z.of_nat n.
+Proof. unfold zlen. rewrite repeat_length. reflexivity. Qed.
+
+Lemma agree_tokfields s lt : LexerMain.agree s lt -> tokfields (unpos s) (lex_token lt).
+Proof.
+  intros H. destruct (LexerView.agree_fields s lt H) as (Hk & _ & _ & Hf). unfold tokfields. cbn [unpos s_kind s_long s_raw s_text].
+  unfold lex_token. cbn [tq tdata]. rewrite Hk. destruct (s_kind s); cbn [LexerView.kind_of]; try (split; [reflexivity | exact Hf]).
+  - destruct Hf as [Hv Hf]. destruct (s_long s <? 0) eqn:El.
+    + destruct Hf as [Hq Hm]. rewrite Hm. split.
+      * rewrite Hq. destruct (s_raw s); reflexivity.
+      * unfold Lexer.tok_str_value in Hv. rewrite Hm in Hv. exact Hv.
+    + destruct Hf as [Hm Hr]. rewrite Hm. split; [|exact Hr]. rewrite zlen_repeat. lia.
+  - destruct Hf as [Hd _]. split; [reflexivity | exact Hd].
+Qed.
+
+Lemma agrees_corr ss0 lts : Forall2 LexerMain.agree ss0 lts ->
   Forall2 corr (map unpos ss0) (map lex_token lts) /\ map pkt (map lex_token lts) = map pks (map unpos ss0).
 Proof.
-  revert lts. induction ss0 as [|s ss IH]; intros lts H; destruct lts as [|lt lts]; try discriminate H.
-  - split; [constructor | reflexivity].
-  - cbn [map] in H. injection H as Hk Hc Hr. destruct (IH lts Hr) as [I1 I2]. split.
-    + cbn [map]. constructor; [|exact I1]. split.
-      * cbn [tk lex_token]. rewrite Hk. apply kc_kind.
-      * cbn [tcode lex_token]. rewrite Hc. reflexivity.
-    + cbn [map]. rewrite I2. f_equal. rewrite pkt_lex_token, Hk, Hc, kc_kind. reflexivity.
+  induction 1 as [|s lt ss lts Hag _ [I1 I2]]; [split; [constructor | reflexivity]|].
+  pose proof (LexerView.agree_code s lt Hag) as Hc. injection Hc as Hk Hc.
+  assert (Hpk : pkt (lex_token lt) = pks (unpos s)).
+  { rewrite pkt_lex_token, Hk, Hc, kc_kind. reflexivity. }
+  split.
+  - cbn [map]. constructor; [|exact I1]. injection Hpk as H1 H2. split; [exact H1|]. split; [exact H2|]. apply agree_tokfields, Hag.
+  - cbn [map]. rewrite I2, Hpk. reflexivity.
 Qed.
 
 Lemma view_eqb_refl a : view_eqb a a = true.
@@ -540,7 +566,48 @@ Proof.
   destruct k; reflexivity.
 Qed.
 
-(* the core: from the aligned chunk list of the writer *)
+(* the core: from a rendering of the lexer's tokens of a source of the dialect *)
+Theorem relex_of_rend W Pind : good_spaces W -> forall src ss0 lts out,
+  Forall byte src -> spec_lex src = Some ss0 -> Lexer.model_lex [src] = Ok lts ->
+  rend W Pind (FmtShape.mk_dstate 0 0) 0 (map lex_token lts) out ->
+  exists ss1 lts',
+    Forall byte out /\ spec_lex out = Some ss1 /\
+    Lexer.model_lex [out] = Ok lts' /\ same_code (map lex_token lts) (map lex_token lts') = true /\
+    nl_before (map lex_token lts') = nl_before (map lex_token lts) /\
+    rr W Pind (FmtShape.mk_dstate 0 0) 0 (map lex_token lts) (map unpos ss1) /\ Forall code_is_raw (map unpos ss1) /\
+    Forall2 corr (map unpos ss1) (map lex_token lts') /\ out = rawtxt (map unpos ss1).
+Proof.
+  intros G src ss0 lts out HB Hs Hm Hrend.
+  destruct (LexerView.lex_agrees_code src ss0 HB Hs) as (lts0 & Hm0 & _ & Hag).
+  rewrite Hm in Hm0. injection Hm0 as <-.
+  destruct (agrees_corr ss0 lts Hag) as [Hcorr Hpk].
+  destruct (EchoRelexSpec.spec_lex_chain src ss0 Hs) as [Hcr Hch].
+  set (ts := map lex_token lts) in *. set (ss := map unpos ss0) in *.
+  pose proof (chain_txt _ _ Hch) as Htxt.
+  assert (Hok : Forall codeok ss).
+  { unfold ss. pose proof (codes_crlf_ok src ss0 HB Hs) as H. clear -H. induction H; cbn [map]; constructor; assumption. }
+  rewrite Htxt in Hch.
+  destruct (relex_rend W Pind G _ 0 ts _ Hrend ltac:(lia) ss Hcorr Hch Hok) as (ss' & Hch' & Hcr' & Hv & _ & Hnl & Hrr & Hraw).
+  destruct (EchoRelexSpec.chain_spec_lex out ss' Hcr' Hch') as (ss1 & Hs1 & Hu1).
+  assert (HBo : Forall byte out).
+  { apply (rend_bytes W Pind G _ 0 ts out Hrend). rewrite <- Htxt in Hch.
+    pose proof (chain_bytes _ _ Hch HB) as Htb. clear -Htb Hcorr. induction Hcorr as [|s t a b Hst _ IH]; [constructor|].
+    inversion Htb; subst. constructor; [|apply IH; assumption]. destruct Hst as [_ [-> _]]. apply code_bytes. assumption. }
+  destruct (LexerView.lex_agrees_code out ss1 HBo Hs1) as (lts' & Hm' & _ & Hag').
+  destruct (agrees_corr ss1 lts' Hag') as [Hcorr' Hpk'].
+  exists ss1, lts'. split; [exact HBo|]. split; [exact Hs1|]. split; [exact Hm'|]. rewrite Hu1. split; [|split; [|split; [|split; [|split]]]].
+  - unfold same_code. rewrite !code_view_cv. fold ts. rewrite Hpk, Hpk', Hu1. fold ss. rewrite Hv. apply view_eqb_refl.
+  - unfold nl_before. rewrite !nl_before_from_nlk. fold ts.
+    assert (Hk : forall a b, map pkt a = map pks b -> map tk a = skinds b).
+    { intros a b H. apply (f_equal (map fst)) in H. rewrite !map_map in H. exact H. }
+    rewrite (Hk _ _ Hpk), (Hk _ _ Hpk'), Hu1. fold ss. apply Hnl.
+  - exact Hrr.
+  - exact Hraw.
+  - rewrite <- Hu1. exact Hcorr'.
+  - apply chain_txt, Hch'.
+Qed.
+
+(* from the aligned chunk list of the writer *)
 Theorem relex_core W Pind : good_spaces W -> forall src ss0 lts cs,
   Forall byte src -> spec_lex src = Some ss0 -> Lexer.model_lex [src] = Ok lts ->
   tiling (map lex_token lts) 0 cs (zlen (map lex_token lts)) -> Forall (good_end (map lex_token lts)) cs ->
@@ -553,38 +620,11 @@ Theorem relex_core W Pind : good_spaces W -> forall src ss0 lts cs,
     Forall2 corr (map unpos ss1) (map lex_token lts') /\ chunks_text W cs = rawtxt (map unpos ss1).
 Proof.
   intros G src ss0 lts cs HB Hs Hm Htil Hg Hcd Hik.
-  destruct (LexerView.lex_agrees_code src ss0 HB Hs) as (lts0 & Hm0 & Hcodes & _).
-  rewrite Hm in Hm0. injection Hm0 as <-.
-  destruct (agrees_corr ss0 lts Hcodes) as [Hcorr Hpk].
-  destruct (EchoRelexSpec.spec_lex_chain src ss0 Hs) as [Hcr Hch].
-  set (ts := map lex_token lts) in *. set (ss := map unpos ss0) in *.
-  pose proof (chain_txt _ _ Hch) as Htxt.
-  assert (Hok : Forall codeok ss).
-  { unfold ss. pose proof (codes_crlf_ok src ss0 HB Hs) as H. clear -H. induction H; cbn [map]; constructor; assumption. }
+  set (ts := map lex_token lts) in *.
   assert (Hrend : rend W Pind (depth_before ts 0) 0 ts (chunks_text W cs)).
   { apply (tiling_rend W Pind ts 0 cs (zlen ts) Htil); [lia | reflexivity | exact Hg | exact Hik | exact Hcd]. }
   assert (HS0 : depth_before ts 0 = FmtShape.mk_dstate 0 0) by (unfold depth_before; destruct ts; reflexivity).
-  rewrite HS0 in Hrend.
-  rewrite Htxt in Hch.
-  destruct (relex_rend W Pind G _ 0 ts _ Hrend ltac:(lia) ss Hcorr Hch Hok) as (ss' & Hch' & Hcr' & Hv & _ & Hnl & Hrr & Hraw).
-  set (out := chunks_text W cs) in *.
-  destruct (EchoRelexSpec.chain_spec_lex out ss' Hcr' Hch') as (ss1 & Hs1 & Hu1).
-  assert (HBo : Forall byte out).
-  { apply (rend_bytes W Pind G _ 0 ts out Hrend). rewrite <- Htxt in Hch.
-    pose proof (chain_bytes _ _ Hch HB) as Htb. clear -Htb Hcorr. induction Hcorr as [|s t a b Hst _ IH]; [constructor|].
-    inversion Htb; subst. constructor; [|apply IH; assumption]. destruct Hst as [_ ->]. apply code_bytes. assumption. }
-  destruct (LexerView.lex_agrees_code out ss1 HBo Hs1) as (lts' & Hm' & Hcodes' & _).
-  destruct (agrees_corr ss1 lts' Hcodes') as [Hcorr' Hpk'].
-  exists ss1, lts'. split; [exact HBo|]. split; [exact Hs1|]. split; [exact Hm'|]. rewrite Hu1. split; [|split; [|split; [|split; [|split]]]].
-  - unfold same_code. rewrite !code_view_cv. fold ts. rewrite Hpk, Hpk', Hu1. fold ss. rewrite Hv. apply view_eqb_refl.
-  - unfold nl_before. rewrite !nl_before_from_nlk. fold ts.
-    assert (Hk : forall a b, map pkt a = map pks b -> map tk a = skinds b).
-    { intros a b H. apply (f_equal (map fst)) in H. rewrite !map_map in H. exact H. }
-    rewrite (Hk _ _ Hpk), (Hk _ _ Hpk'), Hu1. fold ss. apply Hnl.
-  - exact Hrr.
-  - exact Hraw.
-  - rewrite <- Hu1. exact Hcorr'.
-  - apply chain_txt, Hch'.
+  rewrite HS0 in Hrend. exact (relex_of_rend W Pind G src ss0 lts _ HB Hs Hm Hrend).
 Qed.
 
 Definition Ptrue : FmtShape.dstate -> Z -> list token -> Prop := fun _ _ _ => True.
